@@ -12,6 +12,14 @@ import (
 // correspondence case. Returns the built pieces for the oracles.
 var renderCaseCounter int
 
+// rendersFor: one message in four has been rendered before (archived, previewed) when it is rendered for good
+func rendersFor(r *Rng) int {
+	if r.Chance(25) {
+		return 2
+	}
+	return 1
+}
+
 func renderCase(c *Ctx, spc *MsgSpec, renders int, branch string) (outs [][]byte, ok bool) {
 	ok = true
 	// every third message is rendered right after ANOTHER message whose render failed half-way (destination
@@ -68,7 +76,8 @@ func init() {
 			n := c.N(1500, 60000)
 			for i := 0; i < n; i++ {
 				spc := genSpec(c.Rng, genOpts{maxParts: 3, maxFiles: 3, noFails: true})
-				if outs, ok := renderCase(c, spc, 1, ""); ok {
+				if outs, ok := renderCase(c, spc, rendersFor(c.Rng), ""); ok {
+					outs = outs[len(outs)-1:] // the render that is looked at is the last one
 					oracleMessage(c, spc, outs[0], true, false)
 				}
 			}
@@ -80,7 +89,8 @@ func init() {
 			n := c.N(800, 40000)
 			for i := 0; i < n; i++ {
 				spc := genSpec(c.Rng, genOpts{maxParts: 3, maxFiles: 3, noFails: true})
-				if outs, ok := renderCase(c, spc, 1, ""); ok {
+				if outs, ok := renderCase(c, spc, rendersFor(c.Rng), ""); ok {
+					outs = outs[len(outs)-1:] // the render that is looked at is the last one
 					oracleLines(c, spc, outs[0])
 				}
 			}
@@ -92,7 +102,8 @@ func init() {
 			n := c.N(1500, 60000)
 			for i := 0; i < n; i++ {
 				spc := genSpec(c.Rng, genOpts{maxParts: 2, maxFiles: 2, noFails: true, textHeavy: true, smallContent: true})
-				if outs, ok := renderCase(c, spc, 1, ""); ok {
+				if outs, ok := renderCase(c, spc, rendersFor(c.Rng), ""); ok {
+					outs = outs[len(outs)-1:] // the render that is looked at is the last one
 					oracleMessage(c, spc, outs[0], false, true)
 				}
 			}
